@@ -3,8 +3,8 @@
 (* C33, step "gen": TLC                                                     *)
 (*  1. checks laws of the pattern language (TokenMatch.tla) on the token    *)
 (*     universe and on the patterns it generates,                           *)
-(*  2. enumerates patterns from the documented grammar (bounded, the longer *)
-(*     ones sampled by the seed),                                           *)
+(*  2. takes the patterns enumerated from the documented grammar            *)
+(*     (TokenMatchGrammar.tla),                                             *)
 (*  3. derives for every pattern - the generated ones and the ones taken    *)
 (*     from lib/*.cpp - a covering set of token lists from the spec: with   *)
 (*     a list that matches element by element as base, every element gets   *)
@@ -12,20 +12,17 @@
 (*     optional / negated elements are left out and doubled, the list ends  *)
 (*     at every position.                                                   *)
 (*                                                                         *)
-(* Input  IOEnv.PARAMS   one line [seed, shard, nshards, ncore, reps, nons, *)
-(*                       n3alt, n2, n3, n4, nsimple, base]                  *)
+(* Input  IOEnv.PARAMS   see TokenMatchGrammar                              *)
 (*        IOEnv.TOKENS   the token universe: line i = attributes of token i *)
 (*                       as reported by the real Token class (harness);     *)
 (*                       tokens 1..ncore are the "core" (all classes of     *)
 (*                       tokens), the others are the literals of patterns   *)
 (*        IOEnv.PATTERNS this shard's source patterns [pid, kind, cs, hv]   *)
-(* Output IOEnv.OUTGEN   generated patterns of this shard [pid, kind, cs,hv]*)
-(*        IOEnv.OUTCOVER [pid, ok (spec's parser accepts), cases]           *)
+(* Output IOEnv.OUTCOVER [pid, ok (spec's parser accepts), cases]           *)
 (*                       case = [t (token ids), s (start), e (end or -1)]   *)
 (***************************************************************************)
-EXTENDS TokenMatch, Json, IOUtils, SequencesExt
+EXTENDS TokenMatchGrammar
 
-P   == ndJsonDeserialize(IOEnv.PARAMS)[1]
 U   == ndJsonDeserialize(IOEnv.TOKENS)
 Lib == ndJsonDeserialize(IOEnv.PATTERNS)
 
@@ -39,14 +36,8 @@ RankA == 1 + ((P.seed * 7919 + 4001) % 10005)
 RankB == (P.seed * 101) % 10007
 Rank(u) == (u * RankA + RankB) % 10007       \* injective on 1..10006 (10007 is prime)
 
-\* the universe in rank order; Pick scans it (a set that is small enough is taken whole)
-Order == SortSeq([i \in 1..N |-> i], LAMBDA a, b : Rank(a) < Rank(b))
-
-RECURSIVE PickFrom(_, _, _)
-PickFrom(S, r, k) == IF r = 0 \/ k > N THEN {}
-                     ELSE IF Order[k] \in S THEN {Order[k]} \cup PickFrom(S, r - 1, k + 1)
-                     ELSE PickFrom(S, r, k + 1)
-Pick(S, r) == IF Cardinality(S) <= r THEN S ELSE PickFrom(S, r, 1)
+Pick(S, r) == IF Cardinality(S) <= r THEN S
+              ELSE LET q == SortSeq(SetToSeq(S), LAMBDA a, b : Rank(a) < Rank(b)) IN {q[i] : i \in 1..r}
 
 -----------------------------------------------------------------------------
 (* Index of the universe.                                                   *)
@@ -72,45 +63,6 @@ Info(e) ==
               ELSE UNION {Pick(AltIdx(e.alts[i]), P.reps) : i \in 1..Len(e.alts)}
       nons == IF e.k = "neg" THEN StrIdx(e.lit) ELSE Pick(Core \ acc, P.nons)
   IN [prim |-> prim, sub |-> reps \cup nons, non |-> nons]
-
------------------------------------------------------------------------------
-(* Patterns generated from the grammar.                                     *)
-Cmds == <<"any", "name", "type", "var", "varid", "num", "bool", "char", "str", "op", "cop", "comp", "assign", "or", "oror">>
-Lits == << <<"x">>, <<"i","n","t">>, <<"i","f">>, <<"c","o","n","s","t">>, <<"t","r","u","e">>, <<"0">>,
-           <<"(">>, <<")">>, <<"[">>, <<";">>, <<"=">>, <<"=","=">>, <<"<">>, <<"+">>, <<"*">>, <<"%">>,
-           <<"&","&">>, <<"!">>, <<"!","=">>, <<":",":">> >>
-Sets == << <<"(", ")">>, <<"+", "-", "*">>, <<";", "{", "}">>, <<"&", "|">>, <<"x", "0">>, <<"=", "<", ">">>, <<"[", "(">>, <<"%", "*">> >>
-
-Alts == [i \in 1..Len(Cmds) |-> Cmd(Cmds[i])] \o [i \in 1..Len(Lits) |-> Lit(Lits[i])]
-NA == Len(Alts)
-
-\* index arithmetic instead of random numbers: H(j, c) is the c-th "digit" drawn for sample number j
-H(j, c, m) == (((j * (<<613, 397, 211, 811>>[c])) + (P.seed * (<<97, 193, 389, 769>>[c])) + (j \div m) + c * 7) % m) + 1
-
-A1 == [i \in 1..(2 * NA) |-> AltE(<<Alts[((i - 1) % NA) + 1]>>, i > NA)]
-A2 == [i \in 1..(2 * NA * NA) |->
-         AltE(<<Alts[((i - 1) % NA) + 1], Alts[(((i - 1) \div NA) % NA) + 1]>>, i > NA * NA)]
-A3 == [i \in 1..P.n3alt |-> AltE(<<Alts[H(i, 1, NA)], Alts[H(i, 2, NA)], Alts[H(i, 3, NA)]>>, i % 2 = 0)]
-NG == [i \in 1..Len(Lits) |-> NegE(Lits[i])]
-ST == [i \in 1..Len(Sets) |-> SetE(Sets[i])]
-Pool == A1 \o A2 \o A3 \o NG \o ST
-M == Len(Pool)
-
-\* all generated patterns, numbered 1..NGen: all one-element patterns, then samples of length 2, 3, 4, then simple patterns
-NGen == M + P.n2 + P.n3 + P.n4 + P.nsimple
-GenPattern(g) ==
-  IF g <= M THEN <<Pool[g]>>
-  ELSE IF g <= M + P.n2 THEN LET j == g - M IN <<Pool[H(j, 1, M)], Pool[H(j, 2, M)]>>
-  ELSE IF g <= M + P.n2 + P.n3 THEN LET j == g - M - P.n2 IN <<Pool[H(j, 2, M)], Pool[H(j, 3, M)], Pool[H(j, 1, M)]>>
-  ELSE IF g <= M + P.n2 + P.n3 + P.n4 THEN LET j == g - M - P.n2 - P.n3 IN <<Pool[H(j, 4, M)], Pool[H(j, 1, M)], Pool[H(j, 3, M)], Pool[H(j, 2, M)]>>
-  ELSE LET j == g - M - P.n2 - P.n3 - P.n4
-           n == (j % 3) + 1
-       IN [k \in 1..n |-> AltE(<<Lit(Lits[H(j, k, Len(Lits))])>>, FALSE)]
-GenIsSimple(g) == g > M + P.n2 + P.n3 + P.n4
-GenKind(g) == IF GenIsSimple(g) THEN (IF g % 5 = 0 THEN "findsimplematch" ELSE "simpleMatch")
-              ELSE IF g % 17 = 0 THEN "findmatch" ELSE "Match"
-
-MyGen == {g \in 1..NGen : g % P.nshards = P.shard}
 
 -----------------------------------------------------------------------------
 (* What the cover is derived from: the parsed pattern; for source patterns   *)
@@ -171,16 +123,10 @@ ASSUME LawCommands ==
      /\ Cardinality({c \in {"name", "num", "char", "str", "op"} : M1(c, u)}) <= 1
      /\ (M1("assign", u) => ~M1("cop", u))
 
-\* every generated pattern survives render + parse; a simple pattern means the same under both parsers
-ASSUME LawRoundTrip ==
-  \A g \in MyGen : LET p == GenPattern(g) IN
-     /\ Parse(Render(p)) = [ok |-> TRUE, elems |-> p]
-     /\ (GenIsSimple(g) => ParseSimple(Render(p)) = [ok |-> TRUE, elems |-> p])
-
 \* on the base lists: the greedy reading implies the liberal one, tokens behind the pattern do not matter,
 \* Greedy = all elements passed, a one-element negation is the complement of the literal
 ASSUME LawMatching ==
-  \A g \in {x \in MyGen : x % 3 = 0} : LET p == GenPattern(g) IN
+  \A g \in {x \in MyGen : x % 5 = 0} : LET p == GenPattern(g) IN
      \A l \in Cover(p) : LET toks == [i \in 1..Len(l) |-> U[l[i]]] IN
         /\ (MatchGreedy(p, toks, V) => MatchExists(p, toks, V))
         /\ (MatchGreedy(p, toks, V) = (Progress(p, toks, V, 1, 1) = Len(p)))
@@ -195,17 +141,10 @@ ASSUME LawEmpty == MatchGreedy(<<>>, <<>>, V) /\ MatchGreedy(<<NegE(<<"x">>)>>, 
 
 -----------------------------------------------------------------------------
 (* Output.                                                                  *)
-GenSeq == SetToSeq(MyGen)
-GenOut == [k \in 1..Len(GenSeq) |->
-             LET g == GenSeq[k]
-                 p == GenPattern(g)
-             IN [pid |-> P.base + g, kind |-> GenKind(g), cs |-> Render(p), hv |-> HasVarid(p)]]
-
 CoverOut ==
   [k \in 1..Len(Lib) |-> [pid |-> Lib[k].pid, ok |-> LibParsed[k].ok, cases |-> SetToSeq(Cases(Lib[k].kind, LibElems[k]))]]
   \o [k \in 1..Len(GenSeq) |-> [pid |-> P.base + GenSeq[k], ok |-> TRUE, cases |-> SetToSeq(Cases(GenKind(GenSeq[k]), GenPattern(GenSeq[k])))]]
 
-ASSUME ndJsonSerialize(IOEnv.OUTGEN, GenOut)
 ASSUME ndJsonSerialize(IOEnv.OUTCOVER, CoverOut)
 ASSUME PrintT(<<"GEN", Len(GenSeq), "POOL", M, "TOKOK", Cardinality(TokOK), "TOKENS", N, "ELEMS", Cardinality(AllElems)>>)
 =============================================================================
